@@ -94,6 +94,62 @@ about the generated text *under these readings*):
                the `if` branches with exactly these tests are not translated: reaching one gives RSkip
    stop_after_loop
                only the statements up to and including the first loop are translated
+
+Second extension (Intersection._sweep / _SourceState, __getitem__, the cache, the fetch / overlapping wrappers,
+_occurrence_to_interval, _period_windows_with_dt):
+
+Classes as records (spec["records"]: type -> coq record, constructor, fields, default).  An object of a small
+class is a Gallina record; the spec names the record (a type of the model, as `ivl` is) and the translator
+checks it against the class: every attribute any method stores on self must be a declared field, the
+annotations of __init__ must give the declared field types, the class has no bases / decorators / attribute
+hooks.  kind "init": __init__ first stores every field (from expressions that do not mention self), then the
+object exists.  kind "method": a method that updates self returns (self afterwards, result); a method that
+does not (spec "method_of", kind "expr") returns its result; any store on self in it is Unsupported.
+      v.attr                (proj v)
+      v.attr = e            let v := mk (p1 v) .. e .. (pn v) in
+      v.m(args)  / x = v.m(args) / return v.m(args)          (m updates v)
+                            let '(v, m1_) := g_m v args in ..   — only as a statement or unconditionally in the
+                            right-hand side of an assignment / a return, v not used elsewhere in that statement
+Objects are mutable, so NAMES matter.  The accepted ways to hold a record: a fresh object from its
+constructor; a list built by a comprehension of constructor calls; `v = L[i]` (i a constant or a name) which
+makes v an ALIAS into the local list L: every update of v is followed at once by
+`let L := py_set_index L i v in`; when L or i is re-assigned, or L is updated through any(..), v goes out of
+scope.  Unsupported: a second alias into the same list, a second name for a list of records, a copy of such a
+list (comprehension over it, list(), reversed()), append of a record, an update through the target of a
+`for` / comprehension (an item of the list being iterated), an update of a parameter (the caller of the
+generated definition would not see it).
+      x = any(v.m(args) for v in L)            let '(L, x) := any_mut (fun v_ => g_m v_ args) L in
+      x = any(L[i].m(args) for i in IDX)       let '(L, x) := any_mut_at default (fun v_ => ..) L IDX in
+                            (m updates its receiver and returns a bool; the calls stop at the first True:
+                             Model/Loop.v.  all(..) / any([..]) over such calls are Unsupported.)
+      all(e for x in s) / any(..)  (pure)      forallb / existsb;  max / min of a generator: py_max / py_min
+      try: T = next(IT); <statements without calls>  except StopIteration: H      (T, IT: names or fields)
+                            match <items left> with v_ :: it_ => IT := it_; T := v_; .. | [] => H end
+frozenset[int] (type FS): TRUSTED READING — the ascending list of its distinct members, iterated in that
+order (fs_of_list).  CPython iterates the hash table in slot order: ascending when every member is smaller
+than the table size (always for members < 8 and for range(n)); frozenset({1, 8}) iterates 8 first.  Only
+`for`, comprehensions, len and frozenset(..) are accepted on it.
+A `for` directly inside a generator's loop becomes sub_for (its `continue` / `break` only); a generator loop
+whose body calls a generated function with a res result becomes run_for_r.
+Calls of generated functions with a res result (spec calls: res=True, fuel=True): only unconditionally in the
+right-hand side of an assignment, a return, or the iterable of a nested for:
+      x = f(args); rest     res_bind (g_f fuel args) (fun r1_ => let x := r1_ in rest)
+Sum types (spec["sums"]: type -> coq inductive, constructors with fields, and per constructor the text of
+every source expression about such a value: `isinstance(x, int)`, `x is None`, `int(x.timestamp())`, ...).
+The first statement that looks at a sum-typed name becomes `match x with | C fields => ..` and, inside each
+arm, tests on x are the constants the spec gives, so only the branch that runs for C is translated (`raise`
+gives RRaise).  An expression the spec marks undefined for a constructor is Unsupported if it is reached.
+Dictionaries (spec["dicts"]): the list of (key, value) pairs in insertion order with == on keys as a spec
+parameter: {k: v for x in l} = dict_of, d[k] = dict_get, d1.keys() & d2.keys() = keys_inter — TRUSTED READING:
+iterated in the insertion order of d1 (Python leaves the order of that set unspecified).
+Further: tuple assignment `a, b = e1, e2`; tuples of a declared tuple type; list literals; `return ()`;
+enumerate in a comprehension; `with <expr in spec with_ok>:` transparent; effects on several state variables
+(spec effects: vars=[..], optionally res / fuel) and with keyword arguments mapped to Coq text (kwmap);
+kind "proc" with yields=True (result: the state tuple and what was yielded); comparisons of abstract types
+(spec cmpops); `int(x)` of an int; spec annotations; spec file_has (module-level statements the reading of
+a name depends on, e.g. `from datetime import datetime`); STRLIT arguments (string literals that only feed a
+message); spec returned_generator: `def g(): ..; return g()` read as the generator itself; decorators other
+than @override / @property are Unsupported.
 """
 from __future__ import annotations
 
@@ -117,17 +173,21 @@ RESERVED = {"end": "end_", "at": "at_", "in": "in_", "fun": "fun_", "match": "ma
             "rev": "rev_", "filter": "filter_", "map": "map_", "length": "length_", "app": "app_",
             "nat": "nat_", "list": "list_", "option": "option_", "bool": "bool_", "unit": "unit_",
             "fst": "fst_", "snd": "snd_", "negb": "negb_", "true": "true_", "false": "false_", "tt": "tt_",
-            "Some": "Some_", "None": "None_", "nil": "nil_", "cons": "cons_", "Z": "Z_", "N": "N_"}
+            "Some": "Some_", "None": "None_", "nil": "nil_", "cons": "cons_", "Z": "Z_", "N": "N_",
+            "step": "step_", "bound": "bound_", "slice": "slice_", "fetch": "fetch_", "key": "key_"}
 
 # globals the generated text may mention (besides what a spec names): never bindable by a Python local
 EMITTED = {"out1_", "v_", "it_", "oivld", "sub_while", "run_for_o", "run_while", "iter_for", "iter_while", "SCont", "SBrk", "SRet", "Cont", "Brk", "Ret", "RDone", "RRaise",
            "RFuel", "RSkip", "res", "zmem", "oZ_eqb", "nonempty", "py_index", "zrange", "bisect_right",
            "Plain", "NEG_INF", "POS_INF", "ValueError", "TypeError", "KeyError", "IndexError", "freq_eqb",
            "Daily", "Weekly", "Monthly", "Yearly", "sl_add", "sl_remove", "fetch_static", "cov_add", "cov_remove",
-           "heap_push", "ivl", "ctl", "step", "exn"}
+           "heap_push", "ivl", "ctl", "step", "exn",
+           "res_bind", "sub_for", "py_set_index", "list_set_nat", "any_mut", "any_mut_at", "py_max", "py_min",
+           "py_enumerate", "fs_of_list", "fs_insert", "forallb", "existsb", "combine", "r_", "m_", "b_",
+           "run_for_r", "opt_eqb", "dict_set", "dict_of", "dict_get", "dict_has", "keys_inter", "N_plus_Z", "x_"}
 
 COQ_TYPE = {"Z": "Z", "OZ": "option Z", "B": "bool", "IVL": "ivl", "OIVL": "option ivl",
-            "LIST": "list ivl", "U": "unit"}
+            "LIST": "list ivl", "U": "unit", "FS": "list Z"}
 
 GLOBAL_CONSTS = {"NEG_INF": ("NEG_INF", "Z"), "POS_INF": ("POS_INF", "Z"),
                  "DAY": ("86400", "Z"), "WEEK": ("604800", "Z"), "HOUR": ("3600", "Z"), "MINUTE": ("60", "Z")}
@@ -151,7 +211,8 @@ def ann_type(node):
              "Interval": "IVL", "Ivl": "IVL", "IvlOut": "IVL",
              "Interval|None": "OIVL", "Ivl|None": "OIVL", "IvlOut|None": "OIVL",
              "Iterable[Interval]": "LIST", "Iterable[Ivl]": "LIST", "Iterable[IvlOut]": "LIST",
-             "list[Interval]": "LIST", "list[Ivl]": "LIST", "list[IvlOut]": "LIST", "list[int]": "L:Z"}
+             "list[Interval]": "LIST", "list[Ivl]": "LIST", "list[IvlOut]": "LIST", "list[int]": "L:Z",
+             "Iterator[Interval]": "LIST", "frozenset[int]": "FS"}
     if s in table:
         return table[s]
     raise Unsupported(f"annotation {s}")
@@ -179,6 +240,8 @@ class Tr:
         self.methods = spec.get("methods", {})           # (receiver type, method) -> call spec
         self.attrs = spec.get("attrs", {})               # (receiver type, attribute) -> (coq function, type)
         self.binops = spec.get("binops", {})             # (type, op, type) -> (coq function, type)
+        self.cmpops = spec.get("cmpops", {})             # (type, comparison, type) -> coq function to bool
+        self.annotations = spec.get("annotations", {})   # source text of an annotation -> type
         self.effects = spec.get("effects", {})           # unparsed callee -> dict(var, args, update)
         self.enums = spec.get("enums", {})               # type -> (eqb, {literal: constructor})
         self.tuples = spec.get("tuples", {})             # type -> [component types] (a left-nested Coq product)
@@ -200,6 +263,30 @@ class Tr:
         self.kind = spec["kind"]
         self.loop_depth = 0
         self.plain = 0                                   # > 0: inside text that must not produce res values
+        # records: type -> dict(coq, mk, cls, fields=[(python attribute, coq projection, type)], default)
+        self.records = spec.get("records", {})
+        for rt, rd in self.records.items():
+            self.types[rt] = rd["coq"]
+            self.defaults[rt] = rd["default"]
+        # methods of record classes translated earlier: (record type, python name) ->
+        #   dict(coq, args, ret, mutates)
+        self.rec_methods = {k: v for k, v in known_funcs.items() if isinstance(k, tuple)}
+        self.mut_names = {k[1] for k, v in self.rec_methods.items() if v["mutates"]}
+        self.res_body = False                            # inside the body of a run_for_r loop
+        self.hoist = None                                # list of pending prefixes while a statement's
+        self.cond_depth = 0                              #   expression is translated (see hoisted())
+        self.fresh = 0
+        self.uses_fuel = False
+        # sum types: type -> dict(coq, ctors=[(constructor, [(field, type)])],
+        #                         exprs={constructor: {source text with {x}: (coq text with field names, type)}})
+        # dicts: type -> dict(key=type, val=type, eqb=coq text of == on keys)
+        self.dicts = spec.get("dicts", {})
+        for dn, dd in self.dicts.items():
+            self.types[dn] = f"list ({self.coq_type(dd['key'])} * {self.coq_type(dd['val'])})"
+        self.with_ok = set(spec.get("with_ok", []))
+        self.sums = spec.get("sums", {})
+        for stn, sd in self.sums.items():
+            self.types[stn] = sd["coq"]
 
     # ---------------------------------------------------------------- types
     def is_type(self, t):
@@ -216,13 +303,15 @@ class Tr:
     def item_of(self, t):
         if t == "LIST":
             return "IVL"
+        if t == "FS":
+            return "Z"
         if t.startswith("L:"):
             return t[2:]
         raise Unsupported(f"{t} is not a list type")
 
     @staticmethod
     def is_list(t):
-        return t == "LIST" or t.startswith("L:")
+        return t in ("LIST", "FS") or t.startswith("L:")
 
     def same(self, a, b):
         norm = lambda t: "L:IVL" if t == "LIST" else t
@@ -264,8 +353,48 @@ class Tr:
                     (name in RESERVED.values()) or name.startswith("g_"):
                 raise Unsupported(f"local name {name} would capture a name of the generated text")
         env = self.kill(env, name)
+        env = self.drop_aliases(env, name)
         env[name] = ty
+        if name in env.get("$borrowed", ()):
+            env["$borrowed"] = frozenset(env["$borrowed"]) - {name}
+        if ty in self.sums:
+            self.sum_names.add(name)
+            if name in env.get("$ctor", {}):
+                env = dict(env)
+                env["$ctor"] = {k: v for k, v in env["$ctor"].items() if k != name}
         return env
+
+    # aliases: env["$alias"][v] = (L, index text, names in the index) after `v = L[i]` where L is a local
+    # list of records: v is the SAME object as L[i], so every update of v is written back into L at once
+    # (py_set_index); when L or the index is re-assigned, v goes out of scope (its copy could be stale).
+    def drop_aliases(self, env, name):
+        al = env.get("$alias")
+        if not al:
+            return env
+        keep, stale = {}, []
+        for a, (lst, idx, names) in al.items():
+            if a == name:
+                continue
+            if lst == name or name in names:
+                stale.append(a)
+            else:
+                keep[a] = (lst, idx, names)
+        env = dict(env)
+        env["$alias"] = keep
+        for a in stale:
+            env.pop(a, None)
+        return env
+
+    def write_back(self, env, v, pad):
+        al = env.get("$alias", {}).get(v)
+        if al is None:
+            return ""
+        lst, idx, _ = al
+        return f"{pad}let {cname(lst)} := (py_set_index {cname(lst)} {idx} {cname(v)}) in\n"
+
+    def new_var(self, stem):
+        self.fresh += 1
+        return f"{stem}{self.fresh}_"
 
     # ---------------------------------------------------------------- expressions
     def coerce(self, text, ty, want, what="", e=None, env=None):
@@ -279,6 +408,10 @@ class Tr:
             if e is not None and env is not None and is_path(e) and self.known_some(e, env):
                 return f"(ozd {text})"
             raise Unsupported(f"Optional {what} used as an int without a None test")
+        if ty == "OIVL" and want == "IVL":
+            if e is not None and env is not None and is_path(e) and self.known_some(e, env):
+                return f"(oivld {text})"
+            raise Unsupported(f"Optional {what} used as an Interval without a None test")
         if self.is_list(ty) and want == "B":
             return f"(nonempty {text})"
         if ty == "OIVL" and want == "B":
@@ -302,6 +435,10 @@ class Tr:
     def expr0(self, e, env, want=None):
         if self.text_exprs and ast.unparse(e) in self.text_exprs:
             return self.text_exprs[ast.unparse(e)]
+        if self.sums:
+            r = self.sum_expr(e, env)
+            if r is not None:
+                return r
         if isinstance(e, ast.Constant):
             if e.value is None:
                 return "None", "NONE"
@@ -335,13 +472,33 @@ class Tr:
                      "finite_start": (f"(fstart {vt})", "Z"), "finite_end": (f"(fend {vt})", "Z")}
                 if e.attr in m:
                     return m[e.attr]
+            if vty in self.records:
+                for py, proj, ty in self.records[vty]["fields"]:
+                    if py == e.attr:
+                        return f"({proj} {vt})", ty
+                raise Unsupported(f"attribute .{e.attr} of the record {vty}")
             if (vty, e.attr) in self.attrs:
                 fn, ty = self.attrs[(vty, e.attr)]
                 return f"({fn} {vt})", ty
             raise Unsupported(f"attribute .{e.attr} of {vty}")
+        if isinstance(e, (ast.IfExp, ast.BoolOp, ast.GeneratorExp, ast.ListComp, ast.Lambda)):
+            self.cond_depth += 1
+            try:
+                return self.expr0_cond(e, env, want)
+            finally:
+                self.cond_depth -= 1
+        return self.expr0_rest(e, env, want)
+
+    def expr0_cond(self, e, env, want):
+        if isinstance(e, ast.Lambda):
+            raise Unsupported("lambda")
         if isinstance(e, ast.IfExp):
             c, _ = self.expr(e.test, env, "B")
             ref = self.refine_name(e.test)
+            if c in ("true", "false") and not (ref is not None and env.get(ref[0]) in OPT):
+                # a test decided by a known constructor: only the branch that runs is translated
+                live = e.body if c == "true" else e.orelse
+                return self.expr0(live, self.refine(e.test, env, c == "true"), want)
             if ref is not None and env.get(ref[0]) in OPT:
                 # `x if x is not None else d`: the name is rebound at the underlying type
                 n, some_in_body = ref
@@ -363,9 +520,7 @@ class Tr:
                 if some_in_body:
                     return f"(match {x} with Some {x} => {a} | None => {b} end)", ty
                 return f"(match {x} with None => {a} | Some {x} => {b} end)", ty
-            return f"(if {c} then {a} else {b})", ty
-        if isinstance(e, ast.Compare):
-            return self.compare(e, env)
+            return self.simp_if(c, a, b), ty
         if isinstance(e, ast.BoolOp):
             # `x is not None and f(x)`: the operands to the right see the flow fact
             parts = []
@@ -373,14 +528,81 @@ class Tr:
             for v in e.values:
                 parts.append(self.expr(v, cur, "B")[0])
                 cur = self.refine(v, cur, isinstance(e.op, ast.And))
-            sym = " && " if isinstance(e.op, ast.And) else " || "
-            return "(" + sym.join(parts) + ")", "B"
+            return self.simp_bool(parts, isinstance(e.op, ast.And)), "B"
+        return self.comprehension(e, env, want)
+
+    @staticmethod
+    def simp_if(c, a, b):
+        if c == "true":
+            return a
+        if c == "false":
+            return b
+        return f"(if {c} then {a} else {b})"
+
+    @staticmethod
+    def simp_bool(parts, is_and):
+        """&& / || with the constants true / false folded away (they arise from tests on a value whose
+        constructor is known)"""
+        unit, zero = ("true", "false") if is_and else ("false", "true")
+        out = []
+        for t in parts:
+            if t == unit:
+                continue
+            out.append(t)
+            if t == zero:
+                break
+        if out and out[-1] == zero:
+            # everything before a constant `zero` is still evaluated by Python, but it is pure: the value is `zero`
+            return zero
+        if not out:
+            return unit
+        if len(out) == 1:
+            return out[0]
+        return "(" + (" && " if is_and else " || ").join(out) + ")"
+
+    def expr0_rest(self, e, env, want):
+        if isinstance(e, ast.Compare):
+            return self.compare(e, env)
         if isinstance(e, ast.UnaryOp):
             if isinstance(e.op, ast.Not):
-                return f"(negb {self.expr(e.operand, env, 'B')[0]})", "B"
+                t = self.expr(e.operand, env, 'B')[0]
+                return {"true": "false", "false": "true"}.get(t, f"(negb {t})"), "B"
             if isinstance(e.op, ast.USub):
                 return f"(- {self.expr(e.operand, env, 'Z')[0]})", "Z"
             raise Unsupported("unary operator")
+        if isinstance(e, ast.BinOp) and isinstance(e.op, ast.BitAnd):
+            # d1.keys() & d2.keys()
+            ds = []
+            for side in (e.left, e.right):
+                if not (isinstance(side, ast.Call) and isinstance(side.func, ast.Attribute) and side.func.attr == "keys"
+                        and not side.args and not side.keywords):
+                    raise Unsupported("binary operator &")
+                ds.append(self.expr0(side.func.value, env))
+            (a, ta), (b, tb) = ds
+            if ta not in self.dicts or tb not in self.dicts or self.dicts[ta]["key"] != self.dicts[tb]["key"] or \
+                    self.dicts[ta]["eqb"] != self.dicts[tb]["eqb"]:
+                raise Unsupported(f"keys() & keys() of {ta} and {tb}")
+            return f"(keys_inter {self.dicts[ta]['eqb']} {a} {b})", "L:" + self.dicts[ta]["key"]
+        if isinstance(e, ast.DictComp):
+            if len(e.generators) != 1 or e.generators[0].ifs or e.generators[0].is_async or \
+                    not isinstance(e.generators[0].target, ast.Name):
+                raise Unsupported("dict comprehension shape")
+            g = e.generators[0]
+            src, sty = self.expr0(g.iter, env)
+            if not self.is_list(sty):
+                raise Unsupported(f"comprehension over {sty}")
+            inner = self.bind(env, g.target.id, self.item_of(sty))
+            x = cname(g.target.id)
+            self.cond_depth += 1
+            try:
+                k, kty = self.expr0(e.key, inner)
+                v, vty = self.expr0(e.value, inner)
+            finally:
+                self.cond_depth -= 1
+            for dn, dd in self.dicts.items():
+                if dd["key"] == kty and dd["val"] == vty:
+                    return f"(dict_of {dd['eqb']} (fun {x} => {k}) (fun {x} => {v}) {src})", dn
+            raise Unsupported(f"no declared dict type for keys {kty} and values {vty}")
         if isinstance(e, ast.BinOp):
             sym = {ast.Add: "+", ast.Sub: "-", ast.Mult: "*", ast.FloorDiv: "/", ast.Mod: "mod"}
             if type(e.op) not in sym:
@@ -396,41 +618,41 @@ class Tr:
             return f"({a} {sym[type(e.op)]} {b})", "Z"
         if isinstance(e, ast.Call):
             return self.call(e, env)
-        if isinstance(e, (ast.GeneratorExp, ast.ListComp)):
-            # (elt for x in stream if cond)  ->  map (fun x => elt) (filter (fun x => cond) stream)
-            if len(e.generators) != 1:
-                raise Unsupported("nested comprehension")
-            g = e.generators[0]
-            if g.is_async or not isinstance(g.target, ast.Name):
-                raise Unsupported("comprehension target")
-            src, sty = self.expr0(g.iter, env)
-            if not self.is_list(sty):
-                raise Unsupported(f"comprehension over {sty}")
-            ity = self.item_of(sty)
-            inner = self.bind(env, g.target.id, ity)
-            x = cname(g.target.id)
-            for cond in g.ifs:
-                c, _ = self.expr(cond, inner, "B")
-                src = f"(filter (fun {x} => {c}) {src})"
-            if isinstance(e.elt, ast.Name) and e.elt.id == g.target.id:
-                return src, sty
-            elt, ety = self.expr0(e.elt, inner)
-            if ety in ("NONE",):
-                raise Unsupported("comprehension element type")
-            return f"(map (fun {x} => {elt}) {src})", ("LIST" if ety == "IVL" else "L:" + ety)
+        if isinstance(e, ast.List) and e.elts:
+            if want is not None and self.is_list(want):
+                ity = self.item_of(want)
+            else:
+                ity = self.expr0(e.elts[0], env)[1]
+                if ity in ("NONE",) or not self.is_type(ity):
+                    raise Unsupported("list literal of unknown element type")
+            ts = [self.expr(x, env, ity)[0] for x in e.elts]
+            return "[" + "; ".join(ts) + "]", ("LIST" if ity == "IVL" else "L:" + ity)
+        if isinstance(e, ast.Tuple) and e.elts and want in self.tuples:
+            comps = self.tuples[want]
+            if len(comps) != len(e.elts):
+                raise Unsupported(f"tuple of {len(e.elts)} components used as {want}")
+            return "(" + ", ".join(self.expr(x, env, t)[0] for x, t in zip(e.elts, comps)) + ")", want
+        if isinstance(e, ast.Tuple) and not e.elts and want is not None and self.is_list(want):
+            return f"(@nil {self.coq_type(self.item_of(want))})", want      # `return ()`: an empty iterable
         if isinstance(e, ast.List) and not e.elts:
             if want is not None and self.is_list(want):
                 return f"(@nil {self.coq_type(self.item_of(want))})", want
             raise Unsupported("empty list of unknown type (annotate it)")
         if isinstance(e, ast.Subscript):
             xs, xty = self.expr0(e.value, env)
+            if xty in self.dicts:
+                dd = self.dicts[xty]
+                if dd["val"] not in self.defaults:
+                    raise Unsupported(f"subscript of a dict of {dd['val']}")
+                k, _ = self.expr(e.slice, env, dd["key"])
+                return f"(dict_get {dd['eqb']} {self.defaults[dd['val']]} {k} {xs})", dd["val"]
             if xty in self.tuples:
                 comps = self.tuples[xty]
                 if not (isinstance(e.slice, ast.Constant) and isinstance(e.slice.value, int)
                         and 0 <= e.slice.value < len(comps)):
                     raise Unsupported("tuple subscript that is not a constant index in range")
                 return self.tuple_item(xs, len(comps), e.slice.value), comps[e.slice.value]
-            if not self.is_list(xty):
+            if not self.is_list(xty) or xty == "FS":
                 raise Unsupported(f"subscript of {xty}")
             ity = self.item_of(xty)
             if ity not in self.defaults:
@@ -438,6 +660,83 @@ class Tr:
             i, _ = self.expr(e.slice, env, "Z")
             return f"(py_index {self.defaults[ity]} {xs} {i})", ity
         raise Unsupported(f"expression {type(e).__name__}: {ast.unparse(e)}")
+
+    def comp_parts(self, e, env):
+        """(elt for x in stream if cond ...) -> (text of the filtered stream, its type, binder, inner env)"""
+        if len(e.generators) != 1:
+            raise Unsupported("nested comprehension")
+        g = e.generators[0]
+        if g.is_async:
+            raise Unsupported("comprehension target")
+        if isinstance(g.target, ast.Tuple):
+            # for i, x in enumerate(xs)
+            it = g.iter
+            if not (len(g.target.elts) == 2 and all(isinstance(t, ast.Name) for t in g.target.elts)
+                    and isinstance(it, ast.Call) and isinstance(it.func, ast.Name) and it.func.id == "enumerate"
+                    and "enumerate" not in env and len(it.args) == 1 and not it.keywords):
+                raise Unsupported("comprehension target")
+            xs, xty = self.expr0(it.args[0], env)
+            if not self.is_list(xty):
+                raise Unsupported(f"enumerate of {xty}")
+            n1, n2 = g.target.elts[0].id, g.target.elts[1].id
+            if n1 == n2:
+                raise Unsupported("repeated name in a tuple target")
+            inner = self.bind(self.bind(env, n1, "Z"), n2, self.item_of(xty))
+            src, sty, x = f"(py_enumerate {xs})", None, f"'({cname(n1)}, {cname(n2)})"
+        elif isinstance(g.target, ast.Name):
+            src, sty = self.expr0(g.iter, env)
+            if not self.is_list(sty):
+                raise Unsupported(f"comprehension over {sty}")
+            inner = self.borrow(self.bind(env, g.target.id, self.item_of(sty)), g.target.id)
+            x = cname(g.target.id)
+        else:
+            raise Unsupported("comprehension target")
+        for cond in g.ifs:
+            c, _ = self.expr(cond, inner, "B")
+            src = f"(filter (fun {x} => {c}) {src})"
+            inner = self.refine(cond, inner, True)          # the element is evaluated only where cond held
+        return src, sty, x, inner
+
+    def comprehension(self, e, env, want):
+        # (elt for x in stream if cond)  ->  map (fun x => elt) (filter (fun x => cond) stream)
+        g = e.generators[0]
+        src, sty, x, inner = self.comp_parts(e, env)
+        if sty is not None and isinstance(e.elt, ast.Name) and isinstance(g.target, ast.Name) \
+                and e.elt.id == g.target.id:
+            if self.item_of(sty) in self.records:
+                raise Unsupported("a list of existing record objects (a second reference to mutable objects)")
+            return src, sty
+        elt, ety = self.expr0(e.elt, inner)
+        if ety in self.records and not (isinstance(e.elt, ast.Call) and isinstance(e.elt.func, ast.Name)
+                                        and e.elt.func.id in self.known and e.elt.func.id not in inner):
+            raise Unsupported("a list of existing record objects (a second reference to mutable objects)")
+        if ety in OPT and is_path(e.elt) and self.known_some(e.elt, inner):
+            # an Optional the comprehension's own `if` tested against None
+            elt, ety = self.coerce(elt, ety, OPT[ety], ast.unparse(e.elt), e.elt, inner), OPT[ety]
+        if ety in ("NONE",):
+            raise Unsupported("comprehension element type")
+        return f"(map (fun {x} => {elt}) {src})", ("LIST" if ety == "IVL" else "L:" + ety)
+
+    def sum_expr(self, e, env):
+        """an expression about a variable of a sum type whose constructor is known here: the text the
+        spec gives for this constructor"""
+        ctors = env.get("$ctor")
+        if not ctors:
+            return None
+        text = ast.unparse(e)
+        for name, ctor in ctors.items():
+            if name not in text:
+                continue
+            sd = self.sums[env[name]]
+            for pat, val in sd["exprs"].get(ctor, {}).items():
+                if ast.unparse(ast.parse(pat.format(x=name), mode="eval").body) == text:
+                    if val is None:
+                        raise Unsupported(f"`{text}` is not defined when {name} is a {ctor}")
+                    t, ty = val
+                    fields = dict(sd["ctors"])[ctor]
+                    return t.format(**{f: f"{cname(name)}_{f}" for f, _ in fields}), ty
+            # any other use of the variable under a known constructor is not translated
+        return None
 
     @staticmethod
     def tuple_item(x, n, i):
@@ -479,6 +778,12 @@ class Tr:
             else:
                 raise Unsupported(f"membership of {ta}")
             return (r if isinstance(op, ast.In) else f"(negb {r})"), "B"
+        if self.cmpops:
+            a, ta = self.expr0(e.left, env)
+            b, tb = self.expr0(rhs, env)
+            sy = {ast.Lt: "<", ast.LtE: "<=", ast.Gt: ">", ast.GtE: ">=", ast.Eq: "==", ast.NotEq: "!="}.get(type(op))
+            if (ta, sy, tb) in self.cmpops:
+                return f"({self.cmpops[(ta, sy, tb)]} {a} {b})", "B"
         if isinstance(op, (ast.Eq, ast.NotEq)):
             a, ta = self.expr0(e.left, env)
             # an enum compared with a string literal
@@ -531,6 +836,12 @@ class Tr:
             args = args + [kws.pop("reverse", ast.Constant(False))]
         if len(args) != len(argtys):
             raise Unsupported(f"arity of {fn}")
+        # STRLIT: an argument that must be a string literal and only feeds a message: dropped
+        for a, t in zip(args, argtys):
+            if t == "STRLIT" and not (isinstance(a, ast.Constant) and isinstance(a.value, str)):
+                raise Unsupported(f"argument of {fn} is not a string literal")
+        args = [a for a, t in zip(args, argtys) if t != "STRLIT"]
+        argtys = [t for t in argtys if t != "STRLIT"]
         if set(kws) != set(fixed) | {n for n, _ in kwt}:
             raise Unsupported(f"keyword arguments of {fn}")
         for key, text in fixed.items():
@@ -577,6 +888,39 @@ class Tr:
             a = self.expr(kw["start"], env, "OZ")[0] if "start" in kw else f"(st {x})"
             b = self.expr(kw["end"], env, "OZ")[0] if "end" in kw else f"(en {x})"
             return f"(set_span {x} {a} {b})", "IVL"
+        if fn in ("all", "any") and len(e.args) == 1 and not e.keywords:
+            comb = "forallb" if fn == "all" else "existsb"
+            a = e.args[0]
+            if isinstance(a, (ast.GeneratorExp, ast.ListComp)):
+                if self.mut_call_in(a.elt):
+                    raise Unsupported(f"{fn}(..) over calls that update their receiver: only as `x = {fn}(..)`")
+                self.cond_depth += 1
+                try:
+                    src, _, x, inner = self.comp_parts(a, env)
+                    elt, _ = self.expr(a.elt, inner, "B")
+                finally:
+                    self.cond_depth -= 1
+                return f"({comb} (fun {x} => {elt}) {src})", "B"
+            t, ty = self.expr0(a, env)
+            if self.same(ty, "L:B"):
+                return f"({comb} (fun b_ => b_) {t})", "B"
+            raise Unsupported(f"{fn} of {ty}")
+        if fn in ("max", "min") and len(e.args) == 1 and not e.keywords and \
+                isinstance(e.args[0], (ast.GeneratorExp, ast.ListComp)):
+            t, ty = self.expr0(e.args[0], env)
+            if not self.same(ty, "L:Z"):
+                raise Unsupported(f"{fn} over {ty}")
+            return f"(py_{fn} {t})", "Z"
+        if fn == "frozenset" and len(e.args) == 1 and not e.keywords:
+            t, ty = self.expr0(e.args[0], env)
+            if not self.same(ty, "L:Z"):
+                raise Unsupported(f"frozenset of {ty}")
+            return f"(fs_of_list {t})", "FS"
+        if isinstance(e.func, ast.Attribute) and fn not in self.calls and \
+                any(k[1] == e.func.attr for k in self.rec_methods):
+            r = self.record_method_call(e, env)
+            if r is not None:
+                return r
         if fn == "iter" and len(e.args) == 1 and not e.keywords:
             # an iterator over a stream = the list of the items not yet consumed (see `next` in try_stmt)
             x, ty = self.expr0(e.args[0], env)
@@ -587,6 +931,10 @@ class Tr:
             x, ty = self.expr0(e.args[0], env)
             if not self.is_list(ty):
                 raise Unsupported(f"{fn} of {ty}")
+            if self.item_of(ty) in self.records and fn != "len":
+                raise Unsupported(f"{fn} of a list of mutable records")
+            if ty == "FS" and fn == "reversed":
+                raise Unsupported("reversed of a frozenset")
             if fn == "reversed":
                 return f"(rev {x})", ty
             if fn == "list":
@@ -595,6 +943,13 @@ class Tr:
         if fn == "range" and len(e.args) == 1 and not e.keywords:
             n, _ = self.expr(e.args[0], env, "Z")
             return f"(zrange {n})", "L:Z"
+        if fn == "int" and "int" not in env and len(e.args) == 1 and not e.keywords:
+            # int(x) of an int is x (a float never has type Z here: a library call declared to return Z
+            # returns a whole number)
+            t, ty = self.expr0(e.args[0], env)
+            if ty != "Z":
+                raise Unsupported(f"int() of {ty}")
+            return t, "Z"
         if fn == "cast" and len(e.args) == 2 and not e.keywords and ast.unparse(e.args[0]) == "int":
             # typing.cast(int, x): no run-time effect; x must be an int here
             return self.expr(e.args[1], env, "Z")
@@ -620,6 +975,8 @@ class Tr:
                 if not self.in_try:
                     raise Unsupported(f"{fn} may raise: only as `try: return {fn}(..) except ..`")
                 self.last_raises = cs
+            if isinstance(cs, dict) and cs.get("res"):
+                return self.res_call(cs, fn, e, env)
             return self.apply_spec(cs, fn, e.args, e.keywords, env)
         if isinstance(e.func, ast.Attribute) and self.methods:
             recv, rty = self.expr0(e.func.value, env)
@@ -637,6 +994,86 @@ class Tr:
             ts = [self.expr(a, env, t)[0] for a, t in zip(e.args, argtys)]
             return "(" + " ".join([cn] + ts) + ")", ret
         raise Unsupported(f"call of {fn}")
+
+    # ---- calls that cannot stay inside the expression: they are bound in front of the statement
+    def mut_call_in(self, node):
+        """does the expression contain a call of a method that updates its receiver?"""
+        return any(isinstance(x, ast.Call) and isinstance(x.func, ast.Attribute) and x.func.attr in self.mut_names
+                   for x in ast.walk(node))
+
+    def can_hoist(self, what):
+        if self.hoist is None or self.cond_depth:
+            raise Unsupported(f"{what}: only as a statement, or unconditionally in the right-hand side of an "
+                              f"assignment / a return")
+
+    def record_method_call(self, e, env):
+        """v.m(args) for a method m of a record class (translated earlier)"""
+        recv = e.func.value
+        if isinstance(recv, ast.Name) and recv.id == "self" and "self" not in env:
+            return None
+        vt, vty = self.expr0(recv, env)
+        md = self.rec_methods.get((vty, e.func.attr))
+        if md is None:
+            return None
+        if e.keywords or len(e.args) != len(md["args"]):
+            raise Unsupported(f"call shape of {ast.unparse(e.func)}")
+        ts = [self.expr(a, env, t)[0] for a, t in zip(e.args, md["args"])]
+        text = "(" + " ".join([md["coq"], vt] + ts) + ")"
+        if not md["mutates"]:
+            return text, md["ret"]
+        # the method returns (updated record, result): bound in front of the statement
+        if not isinstance(recv, ast.Name):
+            raise Unsupported(f"{ast.unparse(e.func)} updates its receiver, which is not a plain name")
+        self.can_hoist(ast.unparse(e.func))
+        v = recv.id
+        self.check_mutable_here(v, env)
+        lst = env.get("$alias", {}).get(v, (None,))[0]
+        others = sum(1 for x in ast.walk(self.stmt_expr) if isinstance(x, ast.Name) and x.id in (v, lst)) - \
+            sum(1 for x in ast.walk(e) if isinstance(x, ast.Name) and x.id in (v, lst))
+        if others or sum(1 for x in ast.walk(e) if isinstance(x, ast.Name) and x.id == v) != 1:
+            raise Unsupported(f"{v} is updated by {ast.unparse(e.func)} and used elsewhere in the same statement")
+        var = self.new_var("m")
+        self.hoist.append(dict(kind="mut", recv=v, text=text, var=var))
+        return var, md["ret"]
+
+    def res_call(self, cs, fn, e, env):
+        """a call of a generated function whose result is a res: `res_bind (f ..) (fun r => ..)` in front of
+        the statement"""
+        self.can_hoist(fn)
+        if not self.res or (self.plain and not (self.res_body and self.loop_depth == 1)):
+            raise Unsupported(f"{fn} returns a res: only in a function with a res result, outside nested loops")
+        cs2 = dict(cs)
+        if cs.get("fuel"):
+            self.uses_fuel = True
+            cs2["pre"] = ["fuel"] + list(cs.get("pre", []))
+        text, ret = self.apply_spec(cs2, fn, e.args, e.keywords, env)
+        var = self.new_var("r")
+        self.hoist.append(dict(kind="res", text=text, var=var))
+        return var, ret
+
+    def hoisted(self, node, env, fn):
+        """translate one statement's expression with fn(); -> (result of fn, prefix text maker, suffix, env after)"""
+        saved, saved_e = self.hoist, getattr(self, "stmt_expr", None)
+        self.hoist, self.stmt_expr = [], node
+        try:
+            r = fn()
+            hs = self.hoist
+        finally:
+            self.hoist, self.stmt_expr = saved, saved_e
+        return r, hs
+
+    def hoist_prefix(self, hs, env, pad):
+        """-> (text before the statement, text after everything that follows it, env after the calls)"""
+        pre, post = "", ""
+        for h in hs:
+            if h["kind"] == "mut":
+                v = h["recv"]
+                pre += f"{pad}let '({cname(v)}, {h['var']}) := {h['text']} in\n" + self.write_back(env, v, pad)
+                env = self.kill(env, v)
+            else:
+                pre += f"{pad}res_bind {h['text']} (fun {h['var']} =>\n"
+                post += ")"
+        return pre, post, env
 
     def apply_fetch(self, cs, fn, e, env):
         """x.fetch(start, end, *, reverse=False) for a (coq, [OZ, OZ, B], ret) entry"""
@@ -705,19 +1142,64 @@ class Tr:
         fn = ast.unparse(c.func)
         if fn in self.effects:
             ef = self.effects[fn]
+            if ef.get("vars"):
+                return "@" + ef["vars"][0], c, ef
             return ("@" + ef["var"]) if ef.get("var") else None, c, ef
         if isinstance(c.func, ast.Attribute) and c.func.attr == "append" and isinstance(c.func.value, ast.Name):
             return c.func.value.id, c, "append"
         return None
 
-    def assigned(self, stmts):
-        """env keys assigned anywhere in the statements, in order of first appearance"""
+    def self_is_record(self):
+        return self.spec["kind"] in ("method", "init") or bool(self.spec.get("method_of"))
+
+    def assigned(self, stmts, env=None):
+        """env keys assigned anywhere in the statements, in order of first appearance.  An update of a record
+        (a field store, a call of a method that updates its receiver) counts as an assignment of the
+        variable that holds it — and of every list it may be an alias into."""
         out = []
+        mod = ast.Module(body=list(stmts), type_ignores=[])
 
         def add(k):
             if k not in out:
                 out.append(k)
-        for sub in ast.walk(ast.Module(body=list(stmts), type_ignores=[])):
+        # x -> lists it may alias: `x = L[i]` here or before, `.. for x in L` in a comprehension
+        alias_of = {}
+        for a, (lst, _i, _n) in (env or {}).get("$alias", {}).items():
+            alias_of.setdefault(a, set()).add(lst)
+        comp_var = {}
+        for sub in ast.walk(mod):
+            if isinstance(sub, ast.Assign) and len(sub.targets) == 1 and isinstance(sub.targets[0], ast.Name) and \
+                    isinstance(sub.value, ast.Subscript) and isinstance(sub.value.value, ast.Name):
+                alias_of.setdefault(sub.targets[0].id, set()).add(sub.value.value.id)
+            if isinstance(sub, (ast.GeneratorExp, ast.ListComp)):
+                for g in sub.generators:
+                    if isinstance(g.target, ast.Name) and isinstance(g.iter, ast.Name):
+                        comp_var.setdefault(g.target.id, set()).add(g.iter.id)
+
+        def add_mut(v):
+            if v in comp_var:
+                for lst in sorted(comp_var[v]):
+                    add(lst)
+                return
+            add(v)
+            for lst in sorted(alias_of.get(v, ())):
+                add(lst)
+        for sub in ast.walk(mod):
+            if isinstance(sub, ast.Call) and isinstance(sub.func, ast.Attribute) and sub.func.attr in self.mut_names:
+                r = sub.func.value
+                if isinstance(r, ast.Name):
+                    add_mut(r.id)
+                elif isinstance(r, ast.Subscript) and isinstance(r.value, ast.Name):
+                    add(r.value.id)
+            if isinstance(sub, (ast.Assign, ast.AnnAssign, ast.AugAssign)):
+                tg = sub.targets if isinstance(sub, ast.Assign) else [sub.target]
+                rec = [t for t in tg if isinstance(t, ast.Attribute) and isinstance(t.value, ast.Name)
+                       and (t.value.id != "self" or self.self_is_record())]
+                if rec:
+                    for t in rec:
+                        add_mut(t.value.id)
+                    if len(rec) == len(tg):
+                        continue
             if isinstance(sub, ast.Assign):
                 if isinstance(sub.value, ast.Call) and ast.unparse(sub.value.func) in self.pops:
                     add("@" + self.pops[ast.unparse(sub.value.func)]["var"])
@@ -728,32 +1210,39 @@ class Tr:
                                 add(el.id)
                     else:
                         add(self.target_key(t))
+                am = self.any_mut_shape(sub.value)
+                if am is not None:
+                    add(am)
             elif isinstance(sub, (ast.AnnAssign, ast.AugAssign)):
                 add(self.target_key(sub.target))
             elif isinstance(sub, ast.Try) and self.next_form(sub) is not None:
                 add(self.next_form(sub)[1])
             elif isinstance(sub, ast.Expr) and isinstance(sub.value, ast.Call) and \
                     isinstance(sub.value.func, ast.Name) and sub.value.func.id in self.closures:
-                for k in self.assigned(self.closures[sub.value.func.id]):
+                for k in self.assigned(self.closures[sub.value.func.id], env):
                     add(k)
             elif isinstance(sub, ast.Expr):
                 ef = self.effect_of(sub)
                 if ef is not None and ef[0] is not None:
                     add(ef[0])
-                    if isinstance(ef[2], dict) and ef[2].get("result_var"):
-                        pass
+                    if isinstance(ef[2], dict) and ef[2].get("vars"):
+                        for v in ef[2]["vars"]:
+                            add("@" + v)
         return out
 
     def is_pure(self, s):
         """only assigns / updates state: no yield, continue, break, return, raise, loop, try"""
         if isinstance(s, (ast.Assign, ast.AnnAssign, ast.AugAssign, ast.Pass)):
-            return not any(isinstance(x, (ast.Yield, ast.YieldFrom)) for x in ast.walk(s))
+            return not any(isinstance(x, (ast.Yield, ast.YieldFrom)) for x in ast.walk(s)) and \
+                not self.has_res_call(s) and not self.names_needing_match(s)
         if isinstance(s, ast.Expr):
             if isinstance(s.value, ast.Call) and isinstance(s.value.func, ast.Name) and \
                     s.value.func.id in self.closures and not s.value.args and not s.value.keywords:
                 return all(self.is_pure(x) for x in self.closures[s.value.func.id])
-            return (isinstance(s.value, ast.Constant) and isinstance(s.value.value, str)) or \
-                self.effect_of(s) is not None
+            ef = self.effect_of(s)
+            if ef is not None and isinstance(ef[2], dict) and ef[2].get("res"):
+                return False
+            return (isinstance(s.value, ast.Constant) and isinstance(s.value.value, str)) or ef is not None
         if isinstance(s, ast.If):
             if ast.unparse(s.test) in self.skip_tests:
                 return False
@@ -761,6 +1250,127 @@ class Tr:
         if isinstance(s, ast.Try) and self.next_form(s) is not None:
             return all(self.is_pure(x) for x in s.handlers[0].body)
         return False
+
+    def has_res_call(self, node):
+        for x in ast.walk(node):
+            if isinstance(x, ast.Call):
+                cs = self.calls.get(ast.unparse(x.func))
+                if isinstance(cs, dict) and cs.get("res"):
+                    return True
+        return False
+
+    def names_needing_match(self, node):
+        """sum-typed names are only known by their type here; which ones need a `match` is decided in block()"""
+        if not self.sums:
+            return False
+        return any(isinstance(x, ast.Name) and x.id in self.sum_names for x in ast.walk(node))
+
+    def any_mut_shape(self, value):
+        """any(<generator whose element calls a method that updates its receiver>) -> the list name, or None"""
+        if not (isinstance(value, ast.Call) and isinstance(value.func, ast.Name) and value.func.id == "any"
+                and len(value.args) == 1 and not value.keywords and isinstance(value.args[0], ast.GeneratorExp)
+                and self.mut_call_in(value.args[0].elt)):
+            return None
+        g = value.args[0]
+        c = g.elt
+        if len(g.generators) != 1 or g.generators[0].ifs or g.generators[0].is_async or \
+                not isinstance(g.generators[0].target, ast.Name) or \
+                not (isinstance(c, ast.Call) and isinstance(c.func, ast.Attribute) and not c.keywords):
+            raise Unsupported("shape of any(..) over calls that update their receiver")
+        gen, recv = g.generators[0], c.func.value
+        x = gen.target.id
+        if isinstance(recv, ast.Name) and recv.id == x and isinstance(gen.iter, ast.Name):
+            return gen.iter.id
+        if isinstance(recv, ast.Subscript) and isinstance(recv.value, ast.Name) and \
+                isinstance(recv.slice, ast.Name) and recv.slice.id == x:
+            return recv.value.id
+        raise Unsupported("shape of any(..) over calls that update their receiver")
+
+    def any_mut_assign(self, s, rest, env, fin, ind):
+        """x = any(v.m(args) for v in L)  /  x = any(L[i].m(args) for i in IDX), m updating its receiver"""
+        pad = "  " * ind
+        lst = self.any_mut_shape(s.value)
+        if "any" in env or len(s.targets) != 1 or not isinstance(s.targets[0], ast.Name):
+            raise Unsupported("shape of any(..) over calls that update their receiver")
+        g = s.value.args[0]
+        gen, c = g.generators[0], g.elt
+        x = gen.target.id
+        if lst not in env or not self.is_list(env[lst]) or self.item_of(env[lst]) not in self.records:
+            raise Unsupported(f"{lst} is not a local list of records")
+        self.check_mutable_here(lst)
+        rty = self.item_of(env[lst])
+        md = self.rec_methods.get((rty, c.func.attr))
+        if md is None or not md["mutates"] or md["ret"] != "B" or len(c.args) != len(md["args"]):
+            raise Unsupported(f"method {c.func.attr} of {rty}")
+        for a in c.args:
+            if any(isinstance(n, ast.Name) and n.id in (x, lst) for n in ast.walk(a)):
+                raise Unsupported("arguments that depend on the item or on the list")
+        ts = [self.expr(a, env, t)[0] for a, t in zip(c.args, md["args"])]
+        m = "(fun v_ => (" + " ".join([md["coq"], "v_"] + ts) + "))"
+        if isinstance(c.func.value, ast.Name):
+            text = f"(any_mut {m} {cname(lst)})"
+        else:
+            idxs, ity = self.expr0(gen.iter, env)
+            if not self.is_list(ity) or self.item_of(ity) != "Z":
+                raise Unsupported(f"indices of type {ity}")
+            text = f"(any_mut_at {self.defaults[rty]} {m} {cname(lst)} {idxs})"
+        env2 = self.bind(env, lst, env[lst])                 # (drops the aliases into the list)
+        env2 = self.bind(env2, s.targets[0].id, "B")
+        return f"{pad}let '({cname(lst)}, {cname(s.targets[0].id)}) := {text} in\n" + self.block(rest, env2, fin, ind)
+
+    def borrow(self, env, name):
+        """the target of a `for` / comprehension over a list of records is an item of that list: an update
+        through it would have to reach the list, which is not translated"""
+        if env.get(name) in self.records:
+            env = dict(env)
+            env["$borrowed"] = frozenset(env.get("$borrowed", ())) | {name}
+        return env
+
+    def check_mutable_here(self, name, env=None):
+        """an update of a parameter would be invisible to the caller of the generated definition"""
+        if name in self.pyargs and not (name == "self" and self.self_is_record()):
+            raise Unsupported(f"update of the parameter {name}")
+        if env is not None and name in env.get("$borrowed", ()):
+            raise Unsupported(f"update of {name}, an item of the list being iterated")
+
+    def kill_path(self, env, path):
+        keep = frozenset(f for f in env.get("$nn", frozenset())
+                         if f != path and not f.startswith(path + ".") and not f.startswith(path + "["))
+        env = dict(env)
+        env["$nn"] = keep
+        return env
+
+    def record_field(self, t, env):
+        """assignment target v.attr with v a local record -> (v, record description, (py, proj, type)) or None"""
+        if not (isinstance(t, ast.Attribute) and isinstance(t.value, ast.Name)):
+            return None
+        v = t.value.id
+        if v == "self" and not self.self_is_record():
+            return None
+        if v not in env or env[v] not in self.records:
+            return None
+        rd = self.records[env[v]]
+        for f in rd["fields"]:
+            if f[0] == t.attr:
+                return v, rd, f
+        raise Unsupported(f"{v}.{t.attr} is not a declared field of {env[v]}")
+
+    def set_field(self, v, rd, attr, val):
+        comps = [val if py == attr else f"({proj} {cname(v)})" for py, proj, _ in rd["fields"]]
+        return f"({rd['mk']} {' '.join(comps)})"
+
+    def field_store(self, s, rf, rest, env, fin, ind):
+        """v.attr = e  ->  let v := mk .. e .. in   (and the write-back into the list v is an alias into)"""
+        pad = "  " * ind
+        v, rd, (attr, _proj, fty) = rf
+        self.check_mutable_here(v, env)
+        if isinstance(s, ast.AnnAssign) and ann_type(s.annotation) != fty:
+            raise Unsupported(f"{v}.{attr} is annotated {ast.unparse(s.annotation)}, declared {fty}")
+        (val, _), hs = self.hoisted(s.value, env, lambda: self.expr(s.value, env, fty))
+        pre, post, env = self.hoist_prefix(hs, env, pad)
+        text = f"{pad}let {cname(v)} := {self.set_field(v, rd, attr, val)} in\n" + self.write_back(env, v, pad)
+        env2 = self.kill_path(env, f"{v}.{attr}")
+        return pre + text + self.block(rest, env2, fin, ind) + post
 
     def next_form(self, s):
         """try: x = next(it)  except StopIteration: H   ->  (x, it) or None"""
@@ -799,10 +1409,49 @@ class Tr:
             return self.block(rest, env, fin, ind)           # docstring
         if isinstance(s, ast.Pass):
             return self.block(rest, env, fin, ind)
+        if isinstance(s, ast.With):
+            if not all(ast.unparse(it.context_expr) in self.with_ok and it.optional_vars is None for it in s.items):
+                raise Unsupported("with")
+            if self.loop_depth or any(isinstance(x, (ast.Yield, ast.YieldFrom, ast.Return)) for b in s.body
+                                      for x in ast.walk(b)):
+                raise Unsupported("with inside a loop, or a yield / return inside with")
+            return self.block(list(s.body) + rest, env, fin, ind)
+        if self.sums:
+            x = self.needs_match(s, env)
+            if x is not None:
+                return self.sum_match(x, stmts, env, fin, ind)
         if isinstance(s, ast.AugAssign):
             s = ast.Assign(targets=[s.target], value=ast.BinOp(left=self.as_load(s.target), op=s.op, right=s.value))
         if isinstance(s, ast.Assign) and isinstance(s.value, ast.Call) and ast.unparse(s.value.func) in self.pops:
             return self.pop_assign(s, rest, env, fin, ind)
+        if isinstance(s, ast.Assign) and self.any_mut_shape(s.value) is not None:
+            return self.any_mut_assign(s, rest, env, fin, ind)
+        if isinstance(s, (ast.Assign, ast.AnnAssign)) and s.value is not None:
+            tg = s.targets[0] if isinstance(s, ast.Assign) and len(s.targets) == 1 else getattr(s, "target", None)
+            rf = self.record_field(tg, env) if tg is not None else None
+            if rf is not None:
+                return self.field_store(s, rf, rest, env, fin, ind)
+        if isinstance(s, ast.Assign) and len(s.targets) == 1 and isinstance(s.targets[0], ast.Tuple) and \
+                isinstance(s.value, ast.Tuple):
+            # a, b = e1, e2: the right-hand sides are evaluated first
+            tg, vs = s.targets[0].elts, s.value.elts
+            if len(tg) != len(vs) or not all(isinstance(t, ast.Name) for t in tg) or \
+                    len({t.id for t in tg}) != len(tg):
+                raise Unsupported("tuple assignment")
+            vals = [self.expr(v, env, self.declared.get(t.id, env.get(t.id))) for t, v in zip(tg, vs)]
+            if any(ty == "NONE" for _, ty in vals):
+                raise Unsupported("tuple assignment of an untyped None")
+            env2 = env
+            for t, (_, ty) in zip(tg, vals):
+                env2 = self.bind(env2, t.id, ty)
+            return (f"{pad}let '({', '.join(cname(t.id) for t in tg)}) := ({', '.join(v for v, _ in vals)}) in\n"
+                    + self.block(rest, env2, fin, ind))
+        if isinstance(s, ast.Expr) and isinstance(s.value, ast.Call) and isinstance(s.value.func, ast.Attribute) \
+                and s.value.func.attr in self.mut_names and ast.unparse(s.value.func) not in self.effects:
+            # v.m(args) as a statement, m updating v
+            _, hs = self.hoisted(s.value, env, lambda: self.call(s.value, env))
+            pre, post, env2 = self.hoist_prefix(hs, env, pad)
+            return pre + self.block(rest, env2, fin, ind) + post
         if isinstance(s, (ast.Assign, ast.AnnAssign)):
             if isinstance(s, ast.Assign):
                 if len(s.targets) != 1:
@@ -811,7 +1460,8 @@ class Tr:
             else:
                 if s.value is None:
                     raise Unsupported("annotated assignment")
-                key, value, decl = self.target_key(s.target), s.value, ann_type(s.annotation)
+                decl = self.annotations.get(ast.unparse(s.annotation)) or ann_type(s.annotation)
+                key, value = self.target_key(s.target), s.value
             if key.startswith("@"):
                 want = self.genparams[key[1:]]
             else:
@@ -819,12 +1469,18 @@ class Tr:
                 if want is None and isinstance(value, ast.Constant) and value.value is None and key in env:
                     # `x = None` for a variable that already has a type: the option form of that type
                     want = SOME.get(env[key], env[key])
-            t, ty = self.expr(value, env, want)
+            (t, ty), hs = self.hoisted(value, env, lambda: self.expr(value, env, want))
+            pre, post, env = self.hoist_prefix(hs, env, pad)
             if ty == "NONE":
                 raise Unsupported(f"type of {key} = None unknown (annotate it)")
             if decl:
                 self.declared[key] = decl
-            return self.assign(key, t, ty, env, pad, rest, fin, ind)
+            if ty in self.records and not key.startswith("@"):
+                return pre + self.record_assign(key, value, t, ty, env, pad, rest, fin, ind) + post
+            if self.is_list(ty) and self.item_of(ty) in self.records and \
+                    not isinstance(value, (ast.ListComp, ast.List)):
+                raise Unsupported(f"{key} = {ast.unparse(value)[:40]}: a second name for a list of mutable records")
+            return pre + self.assign(key, t, ty, env, pad, rest, fin, ind) + post
         if isinstance(s, ast.FunctionDef):
             # a local closure without parameters whose assigned names are all nonlocal: inlined at its calls
             a = s.args
@@ -859,14 +1515,14 @@ class Tr:
                 return self.join_if(s, rest, env, fin, ind)
             return self.block(list(self.closures[s.value.func.id]) + rest, env, fin, ind)
         if isinstance(s, ast.Expr) and isinstance(s.value, ast.Yield):
-            if self.kind != "gen" or s.value.value is None:
+            if not self.may_yield() or s.value.value is None:
                 raise Unsupported("yield")
             t, _ = self.expr(s.value.value, env, self.yield_type)
             env2 = dict(env)
             env2["$y"] = True
             return f"{pad}let out := out ++ [{t}] in\n" + self.block(rest, env2, fin, ind)
         if isinstance(s, ast.Expr) and isinstance(s.value, ast.YieldFrom):
-            if self.kind != "gen":
+            if not self.may_yield():
                 raise Unsupported("yield from")
             t, _ = self.expr(s.value.value, env, "LIST" if self.yield_type == "IVL" else "L:" + self.yield_type)
             env2 = dict(env)
@@ -880,18 +1536,38 @@ class Tr:
             if how == "append":
                 if key not in env or not self.is_list(env[key]) or len(c.args) != 1 or c.keywords:
                     raise Unsupported(f"statement {ast.unparse(s)[:80]}")
+                if self.item_of(env[key]) in self.records:
+                    raise Unsupported("append of a mutable record to a list")
                 x, _ = self.expr(c.args[0], env, self.item_of(env[key]))
                 return self.assign(key, f"({cname(key)} ++ [{x}])", env[key], env, pad, rest, fin, ind)
-            if c.keywords or len(c.args) != len(how.get("args", [])):
+            kwmap = how.get("kwmap", {})          # keyword -> {source text of the value: coq text}
+            kws = {k.arg: ast.unparse(k.value) for k in c.keywords}
+            if set(kws) != set(kwmap) or len(kws) != len(c.keywords) or len(c.args) != len(how.get("args", [])) or \
+                    any(kws[k] not in kwmap[k] for k in kws):
                 raise Unsupported(f"call shape of {ast.unparse(c.func)}")
+            kwt = {k: kwmap[k][kws[k]] for k in kws}
             if how.get("raises") and how.get("must_try") and not self.in_try:
                 raise Unsupported(f"{ast.unparse(c.func)} may raise: only inside try")
             self.in_try = False
             ts = [self.expr(a, env, t)[0] for a, t in zip(c.args, how["args"])]     # (type-checked even if unused)
+            if how.get("vars"):
+                # an effect on several state variables: the update gives their tuple (a res of it with res=True)
+                vs = how["vars"]
+                if any("@" + v not in env for v in vs):
+                    raise Unsupported(f"{ast.unparse(c.func)} updates a variable that is not a state variable")
+                if how.get("fuel"):
+                    self.uses_fuel = True
+                text = how["update"].format(*ts, **kwt)
+                pat = "'(" + ", ".join(vs) + ")"
+                if how.get("res"):
+                    if not self.res or self.plain or self.loop_depth:
+                        raise Unsupported(f"{ast.unparse(c.func)} returns a res: only outside loops, in a res function")
+                    return f"{pad}res_bind {text} (fun {pat} =>\n" + self.block(rest, env, fin, ind) + ")"
+                return f"{pad}let {pat} := {text} in\n" + self.block(rest, env, fin, ind)
             if key is None:
                 # a call the spec declares to have no effect on the modelled state (it may only raise)
                 return self.block(rest, env, fin, ind)
-            text = how["update"].format(*ts, var=cname(key))
+            text = how["update"].format(*ts, var=cname(key), **kwt)
             return self.assign(key, text, self.genparams[key[1:]], env, pad, rest, fin, ind)
         if isinstance(s, ast.Continue):
             return pad + fin(env, "continue")
@@ -901,8 +1577,9 @@ class Tr:
             if s.value is not None:
                 if self.kind != "expr":
                     raise Unsupported("return with a value outside a value-returning function")
-                t, _ = self.expr(s.value, env, self.ret_type)
-                return pad + fin(env, "return", t)
+                (t, _), hs = self.hoisted(s.value, env, lambda: self.expr(s.value, env, self.ret_type))
+                pre, post, env = self.hoist_prefix(hs, env, pad)
+                return pre + pad + fin(env, "return", t) + post
             if self.kind == "expr":
                 raise Unsupported("bare return in a value-returning function")
             return pad + fin(env, "return")
@@ -923,6 +1600,71 @@ class Tr:
                 return self.join_if(s, rest, env, fin, ind)
             return self.try_stmt(s, rest, env, fin, ind)
         raise Unsupported(f"statement {type(s).__name__}: {ast.unparse(s)[:80]}")
+
+    def record_assign(self, key, value, t, ty, env, pad, rest, fin, ind):
+        """x = <a record>: a record object is mutable, so the only accepted sources are a fresh object (a
+        constructor call) and an item of a local list — then x is an ALIAS into that list"""
+        if isinstance(value, ast.Call) and isinstance(value.func, ast.Name) and value.func.id in self.known \
+                and value.func.id not in env:
+            return self.assign(key, t, ty, env, pad, rest, fin, ind)
+        if isinstance(value, ast.Subscript) and isinstance(value.value, ast.Name) and value.value.id in env and \
+                (isinstance(value.slice, ast.Name) or
+                 (isinstance(value.slice, ast.Constant) and isinstance(value.slice.value, int))):
+            lst = value.value.id
+            idx, _ = self.expr(value.slice, env, "Z")
+            names = {value.slice.id} if isinstance(value.slice, ast.Name) else set()
+            if key == lst or key in names:
+                raise Unsupported("alias of itself")
+            if any(l2 == lst and a != key for a, (l2, _i, _n) in env.get("$alias", {}).items()):
+                raise Unsupported(f"two names for items of {lst}")
+            env2 = dict(self.bind(env, key, ty))
+            al = dict(env2.get("$alias", {}))
+            al[key] = (lst, idx, names)
+            env2["$alias"] = al
+            return f"{pad}let {cname(key)} := {t} in\n" + self.block(rest, env2, fin, ind)
+        raise Unsupported(f"{key} = {ast.unparse(value)[:40]}: a second name for a mutable record")
+
+    def needs_match(self, s, env):
+        """a name of a sum type, used by this statement's own expression while its constructor is unknown"""
+        if isinstance(s, (ast.If, ast.While)):
+            node = s.test
+        elif isinstance(s, (ast.Assign, ast.AnnAssign, ast.AugAssign, ast.Return, ast.Expr)):
+            node = s.value
+        else:
+            node = None
+        if node is None:
+            return None
+        known = env.get("$ctor", {})
+        for x in ast.walk(node):
+            if isinstance(x, ast.Name) and x.id in env and env[x.id] in self.sums and x.id not in known:
+                return x.id
+        return None
+
+    def sum_match(self, x, stmts, env, fin, ind):
+        """match x with | C fields => <the statements, knowing x is a C> | ... end"""
+        pad = "  " * ind
+        if self.loop_depth:
+            raise Unsupported("a test on a sum-typed value inside a loop")
+        sd = self.sums[env[x]]
+        arms = []
+        for ctor, fields in sd["ctors"]:
+            env2 = dict(env)
+            for f, fty in fields:
+                fname = f"{x}_{f}"
+                if fname in self.all_names:
+                    raise Unsupported(f"the name {fname} is used by the function")
+                env2 = self.bind(env2, fname, fty)
+            env2 = dict(env2)
+            ct = dict(env2.get("$ctor", {}))
+            ct[x] = ctor
+            env2["$ctor"] = ct
+            pat = " ".join([ctor] + [f"{cname(x)}_{f}" for f, _ in fields])
+            arms.append(f"{pad}| {pat} =>\n" + self.block(stmts, env2, fin, ind + 1))
+        return f"{pad}match {cname(x)} with\n" + "\n".join(arms) + f"\n{pad}end"
+
+    def may_yield(self):
+        """a generator; or a procedure that also yields (spec "yields"), outside its loops"""
+        return self.kind == "gen" or (self.kind == "proc" and self.spec.get("yields") and not self.loop_depth)
 
     def pop_assign(self, s, rest, env, fin, ind):
         """x = pop(container) / a, b, c = pop(container): the value the spec gives, then the update of the
@@ -990,6 +1732,10 @@ class Tr:
             # inside the None branch the name still has its option type and equals None
             return f"{pad}match {x} with\n{pad}| Some {x} =>\n{a}\n{pad}| None =>\n{b}\n{pad}end"
         c, _ = self.expr(s.test, env, "B")
+        if c in ("true", "false") and env.get("$ctor"):
+            # a test decided by a known constructor: only the branch that runs is translated
+            live = s.body if c == "true" else s.orelse
+            return self.block(list(live) + rest, self.refine(s.test, env, c == "true"), fin, ind)
         a = self.block(list(s.body) + rest, self.refine(s.test, env, True), fin, ind + 1)
         b = self.block(list(s.orelse) + rest, self.refine(s.test, env, False), fin, ind + 1)
         return f"{pad}if {c} then\n{a}\n{pad}else\n{b}"
@@ -1005,7 +1751,7 @@ class Tr:
             leaves.append(e2)
             return "?"
         self.block([s], env, probe, 0)
-        keys = [k for k in self.assigned([s]) if all(k in e2 for e2 in leaves)]
+        keys = [k for k in self.assigned([s], env) if all(k in e2 for e2 in leaves)]
         tys = {}
         for k in keys:
             if k.startswith("@"):
@@ -1024,7 +1770,7 @@ class Tr:
             items = [self.coerce(cname(x), e2[x], tys[x], f"(joined variable {x})") for x in keys]
             return items[0] if len(items) == 1 else "(" + ", ".join(items) + ")"
         env2 = dict(env)
-        for k in self.assigned([s]):
+        for k in self.assigned([s], env):
             if not k.startswith("@"):
                 env2 = self.kill(env2, k)
                 if k not in keys:
@@ -1056,6 +1802,9 @@ class Tr:
             hb = self.block(list(s.handlers[0].body) + rest, env, fin, ind + 1)
             return (f"{pad}match {cname(it)} with\n{pad}| v_ :: it_ =>\n{pad}  let {cname(x)} := {val} in\n"
                     f"{pad}  let {cname(it)} := it_ in\n{ok}\n{pad}| [] =>\n{hb}\n{pad}end")
+        nx = self.next_form_ext(s, env)
+        if nx is not None:
+            return self.try_next_ext(s, nx, rest, env, fin, ind)
         if s.orelse or s.finalbody or len(s.handlers) != 1 or len(s.body) != 1:
             raise Unsupported("try shape")
         h = s.handlers[0]
@@ -1097,14 +1846,131 @@ class Tr:
         hb = self.block(list(h.body) + rest, env, fin_h, ind + 1)
         return f"{pad}match {t} with\n{pad}| Some v_ =>\n{pad}  {ok}\n{pad}| None =>\n{hb}\n{pad}end"
 
+    def next_form_ext(self, s, env):
+        """try: T = next(IT); <statements without any call or raise>  except StopIteration: H
+        with T / IT a local name or a field of a local record -> (target node, iterator node)"""
+        if s.orelse or s.finalbody or len(s.handlers) != 1 or not s.body:
+            return None
+        h, b = s.handlers[0], s.body[0]
+        if h.name is not None or not isinstance(h.type, ast.Name) or h.type.id != "StopIteration":
+            return None
+        if not (isinstance(b, ast.Assign) and len(b.targets) == 1 and isinstance(b.value, ast.Call)
+                and isinstance(b.value.func, ast.Name) and b.value.func.id == "next" and "next" not in env
+                and len(b.value.args) == 1 and not b.value.keywords):
+            return None
+        for x in s.body[1:]:
+            for sub in ast.walk(x):
+                if isinstance(sub, (ast.Call, ast.Raise, ast.Try, ast.For, ast.While, ast.Yield, ast.YieldFrom,
+                                    ast.Subscript, ast.BinOp, ast.Await)):
+                    # only next() may raise StopIteration inside this try
+                    raise Unsupported("try: x = next(..) followed by a statement that could raise")
+        return b.targets[0], b.value.args[0]
+
+    def try_next_ext(self, s, nx, rest, env, fin, ind):
+        pad = "  " * ind
+        tg, it = nx
+        # the iterator: its remaining items
+        if isinstance(it, ast.Name):
+            if it.id not in env or not self.is_list(env[it.id]):
+                raise Unsupported(f"next of {ast.unparse(it)}")
+            self.check_mutable_here(it.id)
+            ity = self.item_of(env[it.id])
+            it_text = cname(it.id)
+            adv = f"{pad}  let {cname(it.id)} := it_ in\n"
+            env_ok = self.bind(env, it.id, env[it.id])
+        else:
+            rf = self.record_field(it, env)
+            if rf is None or not self.is_list(rf[2][2]):
+                raise Unsupported(f"next of {ast.unparse(it)}")
+            v, rd, (attr, proj, fty) = rf
+            self.check_mutable_here(v, env)
+            ity = self.item_of(fty)
+            it_text = f"({proj} {cname(v)})"
+            adv = f"{pad}  let {cname(v)} := {self.set_field(v, rd, attr, 'it_')} in\n" + self.write_back(env, v, pad + "  ")
+            env_ok = env
+        # the target
+        if isinstance(tg, ast.Name):
+            want = self.declared.get(tg.id)
+            val = self.coerce("v_", ity, want, "(next(..))")
+            env_ok = self.bind(env_ok, tg.id, want or ity)
+            store = f"{pad}  let {cname(tg.id)} := {val} in\n"
+        else:
+            rf = self.record_field(tg, env_ok)
+            if rf is None:
+                raise Unsupported(f"assignment target {ast.unparse(tg)}")
+            v, rd, (attr, proj, fty) = rf
+            self.check_mutable_here(v, env_ok)
+            val = self.coerce("v_", ity, fty, "(next(..))")
+            store = f"{pad}  let {cname(v)} := {self.set_field(v, rd, attr, val)} in\n" + \
+                self.write_back(env_ok, v, pad + "  ")
+            env_ok = self.kill_path(env_ok, f"{v}.{attr}")
+            if fty in OPT and ity == OPT[fty]:
+                env_ok = self.with_nn(env_ok, {f"{v}.{attr}"})
+        ok = self.block(list(s.body[1:]) + rest, env_ok, fin, ind + 1)
+        hb = self.block(list(s.handlers[0].body) + rest, env, fin, ind + 1)
+        # (next() consumes the item first, then the target is stored)
+        return (f"{pad}match {it_text} with\n{pad}| v_ :: it_ =>\n{adv}{store}{ok}\n{pad}| [] =>\n{hb}\n{pad}end")
+
     # ---------------------------------------------------------------- loops
+    def inner_for(self, s, rest, env, fin, ind):
+        """a `for` directly in the body of a generator's loop: sub_for"""
+        if s.orelse or not isinstance(s.target, ast.Name):
+            raise Unsupported("nested loop shape")
+        pad, p1, p2 = "  " * ind, "  " * (ind + 1), "  " * (ind + 2)
+        nil = f"@nil {self.out_type}"
+        state = [k for k in self.assigned(s.body, env) if k in env]
+        if s.target.id in state:
+            raise Unsupported("loop target is a variable that exists before the loop")
+        state_ty = {k: (self.genparams[k[1:]] if k.startswith("@") else self.declared.get(k, env[k])) for k in state}
+
+        def pack(e2):
+            items = [self.coerce(cname(v), e2[v], state_ty[v], f"(state variable {v})") for v in state]
+            return "tt" if not items else (items[0] if len(items) == 1 else "(" + ", ".join(items) + ")")
+        names = [cname(v) for v in state]
+        unpack = "_" if not names else (names[0] if len(names) == 1 else "'(" + ", ".join(names) + ")")
+        (stream, sty), hs = self.hoisted(s.iter, env, lambda: self.expr0(s.iter, env))
+        pre, post, env = self.hoist_prefix(hs, env, pad)
+        if not self.is_list(sty):
+            raise Unsupported(f"loop over {sty}")
+        env_loop = dict(env)
+        for v in state:
+            env_loop = self.bind(env_loop, v, state_ty[v]) if not v.startswith("@") else env_loop
+            env_loop[v] = state_ty[v]
+        env_body = self.borrow(self.bind(env_loop, s.target.id, self.item_of(sty)), s.target.id)
+        env_body["$y"] = False
+
+        def fin_in(e2, k, v=None):
+            if k in ("end", "continue"):
+                return f"(out, {pack(e2)}, true)"
+            if k == "break":
+                return f"(out, {pack(e2)}, false)"
+            raise Unsupported(f"{k} inside a nested loop")
+        self.loop_depth += 1
+        saved_opt, self.opt_body = self.opt_body, False
+        try:
+            body_t = self.block(s.body, env_body, fin_in, ind + 3)
+        finally:
+            self.loop_depth -= 1
+            self.opt_body = saved_opt
+        env_after = dict(env_loop)
+        env_after["$y"] = True
+        rest_t = self.block(rest, env_after, fin, ind)
+        saved_rb, self.res_body = self.res_body, False
+        try:
+            pass
+        finally:
+            self.res_body = saved_rb
+        return (f"{pre}{pad}let '(out1_, {unpack.lstrip(chr(39))}) :=\n{p1}sub_for\n{p2}(fun {unpack} {cname(s.target.id)} =>\n"
+                f"{p2}  let out := {nil} in\n{body_t})\n{p2}{pack(env)} {stream} in\n"
+                f"{pad}let out := out ++ out1_ in\n{rest_t}{post}")
+
     def inner_while(self, s, rest, env, fin, ind):
         """a `while` directly in the body of a generator's `for` (run_for_o): sub_while"""
         if s.orelse:
             raise Unsupported("loop with else")
         pad, p1, p2 = "  " * ind, "  " * (ind + 1), "  " * (ind + 2)
         nil = f"@nil {self.out_type}"
-        state = [k for k in self.assigned(s.body) if k in env]
+        state = [k for k in self.assigned(s.body, env) if k in env]
         state_ty = {k: (self.genparams[k[1:]] if k.startswith("@") else self.declared.get(k, env[k])) for k in state}
 
         def pack(e2):
@@ -1141,6 +2007,8 @@ class Tr:
     def loop(self, s, rest, env, fin, ind):
         if self.loop_depth == 1 and self.opt_body and isinstance(s, ast.While) and self.kind == "gen":
             return self.inner_while(s, rest, env, fin, ind)
+        if self.loop_depth == 1 and isinstance(s, ast.For) and self.kind == "gen":
+            return self.inner_for(s, rest, env, fin, ind)
         if self.loop_depth > 0:
             raise Unsupported("nested loop")
         if s.orelse:
@@ -1153,7 +2021,7 @@ class Tr:
         pad = "  " * ind
         nil = f"@nil {self.out_type}"
         gen = self.kind == "gen"
-        assigned = self.assigned(s.body)
+        assigned = self.assigned(s.body, env)
         state = [k for k in assigned if k in env]
         if is_for and s.target.id in state:
             raise Unsupported("loop target is a variable that exists before the loop")
@@ -1176,7 +2044,7 @@ class Tr:
             if not self.is_list(sty):
                 raise Unsupported(f"loop over {sty}")
             ity = self.item_of(sty)
-            env_body = self.bind(env_loop, s.target.id, ity)
+            env_body = self.borrow(self.bind(env_loop, s.target.id, ity), s.target.id)
             head = f"(fun {unpack} {cname(s.target.id)} =>"
         else:
             cond, _ = self.expr(s.test, env_loop, "B")
@@ -1190,11 +2058,16 @@ class Tr:
             opt = is_for and any(isinstance(x, ast.While) for b in s.body for x in ast.walk(b))
             if opt and (not self.res or self.plain or env.get("$y")):
                 raise Unsupported("a loop nested in a loop needs a res result")
+            resb = is_for and not opt and any(self.has_res_call(b) for b in s.body)
+            if resb and (not self.res or self.plain or env.get("$y")):
+                raise Unsupported("a loop that calls a function with a res result needs a res result")
 
             def fin_body(e2, k, v=None):
                 ctl = {"end": "Cont", "continue": "Cont", "break": "Brk", "return": "Ret"}.get(k)
                 if ctl is None:
                     raise Unsupported(f"{k} inside a loop")
+                if resb:
+                    return f"RDone (out, {pack(e2)}, {ctl})"
                 return f"Some (out, {pack(e2)}, {ctl})" if opt else f"(out, {pack(e2)}, {ctl})"
 
             def fin_post(e2, k, v=None):
@@ -1204,11 +2077,13 @@ class Tr:
             self.loop_depth += 1
             self.plain += 1
             self.opt_body = opt
+            self.res_body = resb
             try:
                 body_t = self.block(s.body, env_body, fin_body, ind + 2)
             finally:
                 self.loop_depth -= 1
                 self.opt_body = False
+                self.res_body = False
             try:
                 # (variables assigned only inside the loop body are not in scope after the loop: a use
                 #  there is an unknown name, i.e. Unsupported)
@@ -1219,6 +2094,8 @@ class Tr:
                    f"{p1}(fun {unpack} =>\n{p2}let out := {nil} in\n{post_t})\n")
             if opt:
                 return f"{pad}run_for_o\n{fns}{p1}{pack(env)} {stream}"
+            if resb:
+                return f"{pad}run_for_r\n{fns}{p1}{pack(env)} {stream}"
             if is_for:
                 text = f"run_for\n{fns}{p1}{pack(env)} {stream}"
                 if env.get("$y"):
@@ -1257,9 +2134,14 @@ class Tr:
         if a.vararg or a.kwarg:
             raise Unsupported("*args / **kwargs parameters")
         pyargs = [x.arg for x in a.posonlyargs + a.args + a.kwonlyargs]
+        self.pyargs = set(pyargs)
+        self.sum_names = set()
+        self.all_names = {x.id for x in ast.walk(fdef) if isinstance(x, ast.Name)} | set(pyargs)
         env = {"$nn": frozenset(), "$y": False}
         params = [f"{{{v} : Type}}" for v in spec.get("tyvars", [])]
         body = list(fdef.body)
+        if spec.get("returned_generator"):
+            body = self.inline_returned_generator(body, spec["returned_generator"])
         if spec.get("stop_after_loop"):
             # only the statements up to and including the first loop are translated
             idx = [i for i, s in enumerate(body) if isinstance(s, (ast.For, ast.While))]
@@ -1277,6 +2159,8 @@ class Tr:
                 params.append(f"({cname(pname)} : {self.coq_type(pty)})")
                 if pname in pyargs:
                     env[pname] = pty
+                    if pty in self.sums:
+                        self.sum_names.add(pname)
                 else:
                     self.genparams[pname] = pty      # never visible as a Python name
             else:                                    # a function-typed parameter given as Coq text
@@ -1300,9 +2184,15 @@ class Tr:
         name = spec["name"]
         for s in body:
             for sub in ast.walk(s):
+                if isinstance(sub, ast.With) and all(ast.unparse(it.context_expr) in self.with_ok and
+                                                     it.optional_vars is None for it in sub.items):
+                    continue        # `with self._lock:` — the lock discipline is tie B's subject (C11)
                 if isinstance(sub, (ast.With, ast.AsyncFunctionDef, ast.ClassDef, ast.Global,
                                     ast.Delete, ast.Await, ast.NamedExpr)):
                     raise Unsupported(f"construct {type(sub).__name__}")
+                if isinstance(sub, ast.Try) and len(sub.handlers) == 1 and \
+                        isinstance(sub.handlers[0].type, ast.Name) and sub.handlers[0].type.id == "StopIteration":
+                    continue        # try: x = next(it) except StopIteration: .. needs no res
                 if isinstance(sub, (ast.Raise, ast.Try)) and not self.res:
                     raise Unsupported(f"{type(sub).__name__} in a function without a res result")
         wrap = (lambda t: f"(RDone {t})") if self.res else (lambda t: t)
@@ -1316,6 +2206,65 @@ class Tr:
                 raise Unsupported("raise after a yield")
             return f"(RRaise {v})"
 
+        def add_fuel():
+            if self.uses_fuel and not has_while:
+                params.insert(len(spec.get("tyvars", [])), "(fuel : nat)")
+
+        if kind == "method":
+            # a method of a record class that updates self: the result is (self afterwards, returned value)
+            if self.res or "self" not in env or env["self"] not in self.records:
+                raise Unsupported("a method needs a record-typed self and a plain result")
+            self.ret_type = spec["ret"]
+            rty = self.coq_type(self.ret_type)
+
+            def fin(e2, k, v=None):
+                if k == "return" and v is not None:
+                    return f"(self, {v})"
+                if k in ("end", "return") and self.ret_type == "U":
+                    return "(self, tt)"
+                raise Unsupported("method falls off its end without returning a value" if k == "end"
+                                  else f"{k} outside a loop")
+            self.kind = "expr"          # (statements are those of a value-returning function)
+            try:
+                text = self.block(body, env, fin, 1)
+            finally:
+                self.kind = "method"
+            return f"Definition {name} {' '.join(params)} : {self.coq_type(env['self'])} * {rty} :=\n{text}.\n"
+        if kind == "init":
+            # __init__: first every field is stored, once, from expressions that do not mention self; then
+            # the object exists and the remaining statements run on it
+            rt = spec["record"]
+            rd = self.records[rt]
+            self.check_class_fields(rd)
+            vals, i = {}, 0
+            stmts = [x for x in body if not (isinstance(x, ast.Expr) and isinstance(x.value, ast.Constant))]
+            while i < len(stmts) and len(vals) < len(rd["fields"]):
+                x = stmts[i]
+                tg = x.targets[0] if isinstance(x, ast.Assign) and len(x.targets) == 1 else getattr(x, "target", None)
+                if not (isinstance(x, (ast.Assign, ast.AnnAssign)) and x.value is not None and
+                        isinstance(tg, ast.Attribute) and isinstance(tg.value, ast.Name) and tg.value.id == "self"):
+                    break
+                f = [fd for fd in rd["fields"] if fd[0] == tg.attr]
+                if not f or tg.attr in vals:
+                    raise Unsupported(f"self.{tg.attr} in __init__")
+                if isinstance(x, ast.AnnAssign) and ann_type(x.annotation) != f[0][2]:
+                    raise Unsupported(f"self.{tg.attr} is annotated {ast.unparse(x.annotation)}, declared {f[0][2]}")
+                if any(isinstance(n, ast.Name) and n.id == "self" for n in ast.walk(x.value)):
+                    raise Unsupported("a field initialised from self")
+                vals[tg.attr] = self.expr(x.value, env, f[0][2])[0]
+                i += 1
+            if len(vals) != len(rd["fields"]):
+                raise Unsupported("__init__ does not start by storing every declared field")
+            env = self.bind(env, "self", rt)
+
+            def fin(e2, k, v=None):
+                if k == "end" or (k == "return" and v is None):
+                    return "self"
+                raise Unsupported(f"{k} in __init__")
+            self.ret_type = None
+            text = self.block(stmts[i:], env, fin, 1)
+            mk = f"({rd['mk']} {' '.join(vals[fd[0]] for fd in rd['fields'])})"
+            return f"Definition {name} {' '.join(params)} : {rd['coq']} :=\n  let self := {mk} in\n{text}.\n"
         if kind == "expr":
             self.ret_type = spec["ret"]
             rty = self.coq_type(self.ret_type)
@@ -1328,6 +2277,7 @@ class Tr:
                 raise Unsupported("function falls off its end without returning a value" if k == "end"
                                   else f"{k} outside a loop")
             text = self.block(body, env, fin, 1)
+            add_fuel()
             full = f"res {rty if ' ' not in rty else '(' + rty + ')'}" if self.res else rty
             return f"Definition {name} {' '.join(params)} : {full} :=\n{text}.\n"
         self.ret_type = None
@@ -1335,18 +2285,22 @@ class Tr:
             if not self.state:
                 raise Unsupported("a proc needs state variables")
             tup = " * ".join(self.coq_type(self.genparams[v]) for v in self.state)
+            if spec.get("yields"):
+                tup += f" * list {self.out_type}"
             tup = f"({tup})" if (" " in tup) else tup
 
             def fin(e2, k, v=None):
                 if k in ("end", "return"):
-                    items = [v2 for v2 in self.state]
+                    items = [v2 for v2 in self.state] + (["out"] if spec.get("yields") else [])
                     return wrap(items[0] if len(items) == 1 else "(" + ", ".join(items) + ")")
                 if k == "raise":
                     return raise_text(e2, v)
                 raise Unsupported(f"{k} outside a loop")
             text = self.block(body, env, fin, 1)
+            add_fuel()
             full = f"res {tup}" if self.res else tup
-            return f"Definition {name} {' '.join(params)} : {full} :=\n{text}.\n"
+            head = f"  let out := @nil {self.out_type} in\n" if spec.get("yields") else ""
+            return f"Definition {name} {' '.join(params)} : {full} :=\n{head}{text}.\n"
         # generator
         out_list = f"list {self.out_type}"
 
@@ -1357,10 +2311,67 @@ class Tr:
                 return raise_text(e2, v)
             raise Unsupported(f"{k} outside a loop")
         text = self.block(body, env, fin, 1)
+        add_fuel()
         full = f"res ({out_list})" if self.res else out_list
         has_loop = any(isinstance(s, (ast.For, ast.While)) for s in body)
         head = "" if (has_loop and not self.uses_out_before_loop(body)) else f"  let out := @nil {self.out_type} in\n"
         return f"Definition {name} {' '.join(params)} : {full} :=\n{head}{text}.\n"
+
+    @staticmethod
+    def inline_returned_generator(body, gname):
+        """def f(..): PRE; def g(): GEN_BODY; return g()   — f returns the generator g() —   is read as the
+        generator  PRE; GEN_BODY  where an earlier `return e` of f becomes `yield from e; return`.
+        Accepted only if g has no parameters, no nonlocal/global, is defined at the top level of f just
+        before the final `return g()`, and is mentioned nowhere else."""
+        if len(body) < 2:
+            raise Unsupported("returned generator shape")
+        g, last = body[-2], body[-1]
+        if not (isinstance(g, ast.FunctionDef) and g.name == gname and not g.decorator_list and
+                not (g.args.args or g.args.posonlyargs or g.args.kwonlyargs or g.args.vararg or g.args.kwarg) and
+                isinstance(last, ast.Return) and isinstance(last.value, ast.Call) and
+                isinstance(last.value.func, ast.Name) and last.value.func.id == gname and
+                not last.value.args and not last.value.keywords):
+            raise Unsupported("returned generator shape")
+        for sub in ast.walk(g):
+            if isinstance(sub, (ast.Nonlocal, ast.Global)) or (isinstance(sub, ast.Name) and sub.id == gname):
+                raise Unsupported("returned generator shape")
+        if not any(isinstance(sub, (ast.Yield, ast.YieldFrom)) for sub in ast.walk(g)):
+            raise Unsupported(f"{gname} is not a generator")
+        pre = body[:-2]
+        for x in pre:
+            for sub in ast.walk(x):
+                if (isinstance(sub, ast.Name) and sub.id == gname) or \
+                        isinstance(sub, (ast.Yield, ast.YieldFrom, ast.FunctionDef, ast.Lambda)):
+                    raise Unsupported("returned generator shape")
+
+        class R(ast.NodeTransformer):
+            def visit_Return(self, node):
+                if node.value is None:
+                    raise Unsupported("bare return before the returned generator")
+                return [ast.Expr(value=ast.YieldFrom(value=node.value)), ast.Return(value=None)]
+        pre = [R().visit(x) for x in pre]
+        out = []
+        for x in pre:
+            out.extend(x if isinstance(x, list) else [x])
+        return [ast.fix_missing_locations(x) for x in out] + list(g.body)
+
+    def check_class_fields(self, rd):
+        """every attribute any method of the class stores on self is a declared field of the record"""
+        cd = self.classdef
+        if cd is None or cd.name != rd["cls"]:
+            raise Unsupported("record class not found")
+        declared = {f[0] for f in rd["fields"]}
+        for sub in ast.walk(cd):
+            if isinstance(sub, ast.Attribute) and isinstance(sub.ctx, (ast.Store, ast.Del)) and \
+                    isinstance(sub.value, ast.Name) and sub.value.id == "self" and sub.attr not in declared:
+                raise Unsupported(f"class {cd.name} stores self.{sub.attr}, which is not a declared field")
+        if any(isinstance(b, ast.Name) and b.id != "object" or not isinstance(b, ast.Name) for b in cd.bases) or \
+                cd.keywords or cd.decorator_list:
+            raise Unsupported(f"class {cd.name} has base classes or decorators")
+        for n in cd.body:
+            if isinstance(n, ast.FunctionDef) and n.name in ("__setattr__", "__getattr__", "__getattribute__",
+                                                             "__slots__", "__del__"):
+                raise Unsupported(f"class {cd.name} defines {n.name}")
 
     def has_while(self, stmts):
         """is there a `while` outside the branches the spec declares untranslated?"""
@@ -1389,15 +2400,18 @@ class Tr:
         return False
 
 
+def find_class(tree, cls):
+    found = [n for n in tree.body if isinstance(n, ast.ClassDef) and n.name == cls]
+    return found[0] if len(found) == 1 else None
+
+
 def find_function(tree, cls, func):
     scope = tree.body
     if cls:
-        for n in tree.body:
-            if isinstance(n, ast.ClassDef) and n.name == cls:
-                scope = n.body
-                break
-        else:
-            raise Unsupported(f"class {cls} not found")
+        cd = find_class(tree, cls)
+        if cd is None:
+            raise Unsupported(f"class {cls} not found (or defined twice)")
+        scope = cd.body
     found = [n for n in scope if isinstance(n, ast.FunctionDef) and n.name == func]
     if len(found) == 1:
         return found[0]
@@ -1425,7 +2439,15 @@ def translate_all(repo: Path, specs, header=HEADER):
             if path not in trees:
                 trees[path] = ast.parse(path.read_text())
             fdef = find_function(trees[path], spec.get("cls"), spec["func"])
+            for line in spec.get("file_has", []):
+                # a module-level statement the spec's reading of a name depends on (e.g. an import)
+                if not any(ast.unparse(n) == line for n in trees[path].body):
+                    raise Unsupported(f"the module does not say `{line}`")
             tr = Tr(spec, known)
+            tr.classdef = find_class(trees[path], spec["cls"]) if spec.get("cls") else None
+            for d in fdef.decorator_list:
+                if ast.unparse(d) not in ("override", "property"):
+                    raise Unsupported(f"decorator {ast.unparse(d)[:40]}")
             text = tr.function(fdef)
             # a definition that mentions a generated definition which could not be translated is not
             # emitted either (Gen/Source.v must always compile: only the proofs about what is missing break)
@@ -1435,8 +2457,18 @@ def translate_all(repo: Path, specs, header=HEADER):
             out.append(f"(* {spec['file']}: {(spec.get('cls') + '.') if spec.get('cls') else ''}{spec['func']} *)\n" + text)
             if spec["kind"] == "expr" and not spec.get("res"):
                 argtys = [t for _, t in spec["params"]]
-                if all(isinstance(t, str) and t in COQ_TYPE for t in argtys):
+                if spec.get("method_of"):
+                    # a method that does not update self (any store / updating call on self is Unsupported
+                    # in a value-returning function)
+                    known[(spec["method_of"], spec["func"])] = dict(coq=name, args=argtys[1:], ret=spec["ret"],
+                                                                    mutates=False)
+                elif all(isinstance(t, str) and t in COQ_TYPE for t in argtys):
                     known[spec.get("pyname", spec["func"])] = (name, argtys, spec["ret"])
+            if spec["kind"] == "method":
+                known[(spec["params"][0][1], spec["func"])] = dict(coq=name, args=[t for _, t in spec["params"][1:]],
+                                                                  ret=spec["ret"], mutates=True)
+            if spec["kind"] == "init":
+                known[spec["cls"]] = (name, [t for _, t in spec["params"]], spec["record"])
         except (Unsupported, SyntaxError, OSError, KeyError) as ex:
             errors[name] = f"{type(ex).__name__}: {ex}"
             out.append(f"(* {name}: NOT TRANSLATED — {str(ex).replace('*)', '* )')} *)\n")
